@@ -355,7 +355,7 @@ def register(reg, stubs, world):
         return [z3.And(is_ctx, name), z3.And(is_map, name), z3.Not(z3.Or(is_ctx, is_map))]
     reg.add(Contract('policy:Enforcer.enforce', pre=enforce_pre, post=enforce_post, axioms=enforce_axioms,
                      heap_axioms=lambda eng, st: eval_axioms(eng, st) + tree_axioms(eng, st),
-                     cases=enforce_cases, ncases=3,
+                     cases=enforce_cases, ncases=3, join='all',
                      tracks=('policy:Enforcer.load_rules', '_checks:_check', 'policy:Enforcer._enforce_scope'),
                      raises=('InvalidContextObject', 'InvalidScope', 'PolicyNotAuthorized', '$CallerException') + EVAL_RAISES,
                      modifies=LOAD_MODS, allocates=True, props=('C03', 'C07', 'C08', 'C14'),
